@@ -58,6 +58,8 @@ type checker struct {
 	binPlain string
 	bin386   string // 32-bit build of the plain runner ("" if unavailable or not applicable)
 	n386     int
+	procsFor func(tag string) int // P count presented to the library, per worker tag
+	procs    int64                // P count of the worker whose failure is being handled
 	build    string
 	entry    props.Entry
 	desc     kit.Description
@@ -182,6 +184,11 @@ func (c *checker) spawn(tag string, args ...string) ([]byte, string, int) {
 	var so, se bytes.Buffer
 	cmd.Stdout, cmd.Stderr = &so, &se
 	cmd.Env = append(c.raceEnv(filepath.Join(c.outDir(), "race-"+tag)), "VERIF_CRASH_FILE="+filepath.Join(c.outDir(), "crash-"+tag+".json"))
+	if c.procsFor != nil {
+		if n := c.procsFor(tag); n > 1 {
+			cmd.Env = append(cmd.Env, fmt.Sprintf("VERIF_PROCS=%d", n))
+		}
+	}
 	err := cmd.Run()
 	code := 0
 	if ctx.Err() != nil {
@@ -217,8 +224,14 @@ func (c *checker) replayOnce(path string) (*ReplayResult, int, string) {
 
 func (c *checker) replayFile(path string) int {
 	_ = os.MkdirAll(c.outDir(), 0o755)
-	if t, err := kit.ReadTrace(path); err == nil && t.Cfg("goarch_386", 0) == 1 && c.bin386 != "" {
-		c.bin = c.bin386
+	if t, err := kit.ReadTrace(path); err == nil {
+		if t.Cfg("goarch_386", 0) == 1 && c.bin386 != "" {
+			c.bin = c.bin386
+		}
+		if n := t.Cfg("gomaxprocs", 1); n > 1 {
+			c.procs = n
+			c.procsFor = func(string) int { return int(c.procs) }
+		}
 	}
 	rr, code, se := c.replayOnce(path)
 	if t, err := kit.ReadTrace(path); err == nil && t.Cfg("attempts", 1) > 1 {
@@ -346,6 +359,17 @@ func (c *checker) run() int {
 		}
 	}
 
+	c.procsFor = func(tag string) int {
+		if !strings.HasPrefix(tag, "w") {
+			return int(c.procs) // replays etc. of a failure found under another P count
+		}
+		w, _ := strconv.Atoi(strings.TrimPrefix(tag, "w"))
+		switch {
+		case !c.desc.NeedsRace && w%8 == 3:
+			return 4
+		}
+		return 1
+	}
 	// 4. the batch
 	deadline := time.Now().Add(time.Duration(budget.WallS) * time.Second).Unix()
 	per := (budget.Runs + int64(c.workers) - 1) / int64(c.workers)
@@ -436,6 +460,13 @@ func (c *checker) run() int {
 		}
 	}
 	if failure != nil {
+		if c.failW != nil && c.failW.Procs > 1 {
+			c.procs = int64(c.failW.Procs)
+			if failure.Config == nil {
+				failure.Config = map[string]int64{}
+			}
+			failure.Config["gomaxprocs"] = c.procs
+		}
 		if c.failW != nil && c.failW.Arch == "386" && c.bin386 != "" {
 			// found on the 32-bit build: replay and minimise there
 			c.bin = c.bin386
